@@ -288,7 +288,7 @@ distinct = distinct positions / names / strings; oracle = reference successor on
     // ---- archive names -----------------------------------------------------------------------------------
     let n = ctx.tier.pick(100_000, 3_000_000);
     for i in 0..n {
-        if i % 16 == 1 {
+        if i % 128 == 1 {
             crate::props::poison::run(i as u64);
         }
         let y = rng.range(1991, 2100) as i64;
@@ -364,7 +364,7 @@ distinct = distinct positions / names / strings; oracle = reference successor on
     // ---- totality on arbitrary strings ------------------------------------------------------------------
     let n = ctx.tier.pick(600_000, 12_000_000);
     for i in 0..n {
-        if i % 16 == 1 {
+        if i % 128 == 1 {
             crate::props::poison::run(i as u64);
         }
         let s = if i % 3 == 0 { near_valid(&mut rng) } else { unicode_string(&mut rng) };
